@@ -34,6 +34,65 @@ def sign_rules(chk, fx, rule_sign, rule_kind=None):
     return nrows
 
 
+PYOP = {'__add__': ast.Add, '__sub__': ast.Sub, '__mul__': ast.Mult, '__truediv__': ast.Div, '__floordiv__': ast.FloorDiv, '__mod__': ast.Mod, '__pow__': ast.Pow,
+        '__lshift__': ast.LShift, '__rshift__': ast.RShift, '__and__': ast.BitAnd, '__or__': ast.BitOr, '__xor__': ast.BitXor, '__matmul__': ast.MatMult}
+PYCMP = {'__eq__': ast.Eq, '__ne__': ast.NotEq, '__lt__': ast.Lt, '__le__': ast.LtE, '__gt__': ast.Gt, '__ge__': ast.GtE}
+
+
+def operator_rule(chk):
+    """sibling rule over the runtime wrapper classes: __op__ applies op"""
+    chk.rule('C26-op', 'every arithmetic / comparison dunder of the runtime classes (Int, Nat, Float, Bool, Str, List and their mutable variants) applies its own Python operator to the '
+                       'wrapped values in every branch: a BinOp / Compare on `self` or `self.value`, or an explicit `int.__x__(self, ..)` / `super().__x__(..)`, inside `__op__` (also '
+                       '`__rop__`, `__iop__`) uses `op` — e.g. `__floordiv__` never computes `/`')
+    classes = OT.runtime_classes()
+    n = 0
+    for cname, c in sorted(classes.items()):
+        for mname, m in sorted(c['methods'].items()):
+            base = mname
+            if mname.startswith('__r') and '__' + mname[3:] in PYOP:
+                base = '__' + mname[3:]
+            elif mname.startswith('__i') and '__' + mname[3:] in PYOP:
+                base = '__' + mname[3:]
+            if base not in PYOP and base not in PYCMP:
+                continue
+
+            def on_self(e):
+                return any(isinstance(x, ast.Name) and x.id == 'self' for x in ast.walk(e))
+            for node in ast.walk(m):
+                got = None
+                if base in PYOP and isinstance(node, ast.BinOp) and (on_self(node.left) or on_self(node.right)):
+                    # string formatting / concatenation inside error messages is not the operation
+                    if isinstance(node.left, ast.Constant) and isinstance(node.left.value, str):
+                        continue
+                    got = type(node.op)
+                    want = PYOP[base]
+                elif base in PYCMP and isinstance(node, ast.Compare) and len(node.ops) == 1 and (on_self(node.left) or on_self(node.comparators[0])):
+                    got = type(node.ops[0])
+                    want = PYCMP[base]
+                    if got in (ast.Is, ast.IsNot, ast.In, ast.NotIn):
+                        continue
+                elif isinstance(node, ast.Call) and isinstance(node.func, ast.Attribute) and node.func.attr.startswith('__') and node.func.attr.endswith('__') \
+                        and (ast.unparse(node.func.value) in ('int', 'float', 'str', 'list', 'bool', 'super()', 'complex') ) and (node.func.attr in PYOP or node.func.attr in PYCMP):
+                    called = node.func.attr
+                    n += 1
+                    ok_names = {base, '__r' + base[2:], '__i' + base[2:]}
+                    if called in ok_names:
+                        chk.ok('C26-op', (cname, mname, 'call', node.lineno))
+                    else:
+                        chk.bad('C26-op', '%s.%s' % (cname, mname), 'calls:%s' % called, '%s.%s computes its result with %s.%s: another operation than the one the method implements'
+                                % (cname, mname, ast.unparse(node.func.value), called), c['file'], node.lineno)
+                    continue
+                if got is None:
+                    continue
+                n += 1
+                if got is want:
+                    chk.ok('C26-op', (cname, mname, node.lineno))
+                else:
+                    chk.bad('C26-op', '%s.%s' % (cname, mname), 'applies:%s' % got.__name__, '%s.%s computes `%s`: it applies %s where the method implements %s, so the value differs from the '
+                            'Python built-in for some operands (e.g. -7 // 2 = -4 but -7 / 2 = -3.5)' % (cname, mname, ast.unparse(node)[:50], got.__name__, want.__name__), c['file'], node.lineno)
+    chk.floor('operator applications in runtime dunders', n, 60)
+
+
 def run(chk):
     fx = F.Facts()
     chk.rule('C26-sign', 'every declared operator impl (Self, Trait(Rhs), Output/PowOutput/ModOutput) of Bool/Nat/Int/Ratio/Float in init_builtin_classes is sound for the sign of '
@@ -79,6 +138,7 @@ def run(chk):
     from sa.props import c02
     chk.rule('C26-guard', 'no runtime dunder of a value-constrained class (Nat, Nat!) narrows a possibly negative result into that class without a guard (shared with C02-wrap)')
     c02.wrap_rules(chk, 'C26-guard')
+    operator_rule(chk)
     return ('The declared operator table is extracted from the typed HIR of Context::init_builtin_classes and checked against an abstract (sign / integrality) semantics of Python\'s '
             'arithmetic, and against the wrapper classes applied by the runtime dunder found through the Python MRO (python ast). Numeric agreement with the Python built-ins '
             'for concrete operands is not decided.'), {}
